@@ -74,6 +74,11 @@ CLAIMED = {
    text="Each method object is modelled by its step counter, the log of in-place network updates (with step arguments and user-callable inputs) and its recorded results. The order of statements in every backend step and the loop conditions of the compute methods are regenerated from the source on each run and interpreted by the model. Kernel-checked theorems show for all target lists that splitting equals one call with the furthest target and reached targets are no-ops (Tempo, MeanFieldTempo, PtTebd). For all histories and all fault oracles they show the object stays in a fault-free state, so a retried call fails again or gives the no-failure result (faultSafe decided on the regenerated lists). PtTempo and GibbsTempo are proved idempotent for every compute/get history. A PtTebd restart from the exported chain continues identically when no pre-measurement control sits at the restart step. Real objects with fault-injecting wrappers at every user-call index are compared exactly with the model on step counters, call traces, time lists and outcomes.",
    ref="§4 C14",
    note=TB + "the LoopOrder classification tables in translate.py (which attributes hold user callables / the network); abstraction 'equal logs => equal numbers' (deterministic code); FloatModel and FloatGrid.steps_mono/gridTime_mono (dt>0); faults are exceptions raised by Hamiltonian/rates/Lindblad/field_eom callables, not bath correlations; known finding restart:PtTebd:pre-control-at-restart-step."),
+ "C20": dict(
+   technique="Lean 4 proof over tables regenerated from source (memo/cache invariant, verified static checker for array sites, numpy view-rule lemma) + translator + differential correspondence",
+   text="The CacheKeys fragment regenerates from the source, for every memoised/public method of the correlations and System classes, its cache key and the attributes it reads (directly, through lambdas stored by __init__, or captured constructor arguments), how Bath copies, and what each anchored function does to a user array. Lean decides on these tables that reads are direct and covered by the key, that Bath copies, and that every array site passes a static check. It proves for all operation histories (including arbitrary cache eviction) that every evaluation returns the value for the object's current attributes and that copies are independent of their originals. It proves that, for all strides, flags and nonzero shapes, every site leaves the caller's array and buffer untouched, never raises numpy's in-place-reshape error, and produces arrays determined by shape and values alone. This rests on a proof that numpy's no-copy reshape always succeeds when only unit axes are inserted, and on a simulation between the concrete and the layout-free array machines. The numpy model is validated exactly against real numpy on 9k (quick) / 43k (thorough) layout x op cases, the memo model bit-for-bit on generated histories over real objects, and 38 public APIs are run in 10 memory layouts comparing caller bytes, flags and results.",
+   ref="§4 C20",
+   note=TB + "numpy reshape/shape-setter/K-order-copy semantics as modelled (grid-validated, arrays without empty axes); translator grammar for self.<attr> reads, stored lambdas and the _cached_on_parameters decorator; lru_cache keys on self identity + arguments; copy.copy keeps function objects. Assumed: callees such as tensornetwork do not write into tracked arrays (observed bytewise only), underscore attributes are not user-assigned, user callables and scipy quad are deterministic. Arrays retained by reference after the call and library-returned arrays aliasing internal state are out of scope."),
  "C18": dict(
    technique="Lean 4 proof over a model regenerated from source (translator) + differential correspondence",
    text="Operand order of every control composition, the float-time->step expression, the tensor-leg wiring of both superoperator applications and the statement order of the compute_dynamics and PtTebd step loops are regenerated from the source into Lean on every run. Theorems proved for all step counts, control assignments and call histories: each control acts exactly once, at its step, before (pre) or after (post) the recorded state, first and last step included; get_controls is fully characterised, each landing call contributing exactly one factor; same-key stacks and ChainControl stacks act in insertion order; float times act at the round-half-even nearest step with explicit binary64 error bound; identity controls change nothing; PtTebd follows the same pre/post rules per site. The executable model is run against the real Control, ChainControl, compute_dynamics and PtTebd on generated schedules (every step 0..N, pre/post, int/float keys, stacks 1-3, non-trace-preserving maps, 2-3 sites) comparing all recorded states. Insertion order for int- and float-keyed controls on one step does not hold (known finding); the theorem is stack_order_partial.",
